@@ -118,6 +118,21 @@ def install(eng: Any) -> None:
     def r_int64(eng: Any, self_: Any) -> Any:
         return pop(self_, "int64")[1]
 
+    def w_string(eng: Any, self_: Any, value: Any) -> Any:
+        push(self_, ("str", value, 0))
+
+    def r_string(eng: Any, self_: Any) -> Any:
+        return pop(self_, "str")[1]
+
+    def w_offset(eng: Any, self_: Any, offset: Any) -> Any:
+        push(self_, ("millis", eng.get_attr(offset, "milliseconds")))
+
+    def r_offset(eng: Any, self_: Any) -> Any:
+        from pyoda_time import Offset
+
+        ms = pop(self_, "millis")[1]
+        return eng.call_value(eng.get_attr(Offset, "from_milliseconds"), [ms], {})
+
     def more(eng: Any, self_: Any) -> Any:
         s = eng.get_attr(self_, "_DateTimeZoneReader__input")
         return s.fields["pos"] < len(s.fields["data"].items)
@@ -134,3 +149,7 @@ def install(eng: Any) -> None:
     fm[vars(W)["_DateTimeZoneWriter__write_int64"]] = w_int64
     fm[vars(R)["_DateTimeZoneReader__read_int64"]] = r_int64
     fm[vars(R)["has_more_data"].fget] = more
+    fm[vars(W)["write_string"]] = w_string
+    fm[vars(R)["read_string"]] = r_string
+    fm[vars(W)["write_offset"]] = w_offset
+    fm[vars(R)["read_offset"]] = r_offset
